@@ -7,7 +7,7 @@ CONSTANTS EPs      \* names of the endpoints used by this instance (keys of Endp
 \*   i0 = 126.255.255.255  i1 = 127.0.0.1  i2 = 127.0.0.2  i3 = 127.0.0.3  i4 = 127.0.0.4
 \*   i8 = 127.255.255.255  i9 = 128.0.0.0  j0 = 127.0.0.0   i6 = ::1   i7 = ::2   i5 = ::
 \*   a2 = 127.0.0.2   a6 = ::1   n31 = 127.0.0.2/31   n32 = 127.0.0.3/32   n8 = 127.0.0.0/8   n128 = ::1/128
-\*   n31h = 127.0.0.3/31 and n8h = 127.0.0.2/8: the subnets n31 / n8 given with host bits set
+\*   n31h = 127.0.0.3/31 and n8h = 127.0.0.2/8: the subnets n31 / n8 given with host bits set (same rule: Canon)
 MatchAll == [a2 |-> {"i2"}, a6 |-> {"i6"}, n31 |-> {"i2", "i3"}, n32 |-> {"i3"},
              n8 |-> {"j0", "i1", "i2", "i3", "i4", "i8"}, n128 |-> {"i6"},
              n31h |-> {"i2", "i3"}, n8h |-> {"j0", "i1", "i2", "i3", "i4", "i8"}]
@@ -24,7 +24,7 @@ MCEndpoints == {EndpointTable[n] : n \in EPs}
 CallSt == <<call.kind, call.r, call.pc>>
 AttSt == <<att.dir, att.peer, att.ip, att.tpt, att.k>>
 St == <<mem, disk, up, CallSt, AttSt, Shown>>
-ViewNoGhost == <<mem, disk, loaded, up, CallSt, AttSt>>
+ViewNoGhost == <<mem, disk, up, CallSt, AttSt>>
 EmitEdge == PrintT(<<"VFEDGE", ToJson([s |-> St, op |-> op', t |-> St'])>>)
 Conf == [match |-> MCMatch, canon |-> MCCanon, peers |-> PeerRules, addrs |-> AddrRules, subnets |-> SubnetRules,
          endpoints |-> MCEndpoints, exclusive |-> Exclusive, faults |-> Faults]
